@@ -13,7 +13,7 @@ RULE = ("random programs with alternating sequential / parallel nestings to dept
         "the result body is flat (gates, loops, parallel groups of gates), no gate instance lost or duplicated, header data and subcircuit "
         "annotations preserved, loop-in-parallel raises JaqalError; non-trivial = program has a parallel block with a sequential branch")
 BOUND = "n <= 4, depth <= 4, <= 3 statements per block"
-BUDGET_S = {"quick": 40, "thorough": 600}
+BUDGET_S = {"quick": 40, "thorough": 400}
 
 
 def cases(tier, rng):
